@@ -66,8 +66,11 @@ def disable_message_validation(ignore=False):
     """
     if not ignore:
         token = _VALIDATION_ENABLED.set(False)
-        yield
-        _VALIDATION_ENABLED.reset(token)
+        try:
+            yield
+        finally:
+            # restore validation also when the block is left through an exception
+            _VALIDATION_ENABLED.reset(token)
     else:
         yield  # dummy context
 
